@@ -483,6 +483,10 @@ NEW_DIRECTED = {
     "e12_2x2_two_news": ["-1 cfg u1 c3", "-1 N 8 2 2 2", "-1 T 0", "-1 A 0 th 1 2", "-1 A 0 dr 1 2 2 1", "-1 A 0 dr 1 2 3 2", "-1 A 0 dr 1 2 0 4",
                          "-1 E 0 set 1", "-1 S 0", "-1 N 1 1 1 3", "-1 T 1", "-1 A 1 sr 1 3", "-1 A 1 sr 1 0", "-1 A 1 sr 1 2", "-1 A 1 sr 1 4", "-1 S 1",
                          "-1 S 0", "-1 end"],
+    # a one-port SOL calibration that solves; then a fourth standard with an unknown parameter (DI91: its add failing after
+    # _vnacal_new_get_parameter must not make the calibration unsolvable) and measurement errors by spline (DI90)
+    "t8_sol_then_unknown": ["-1 cfg s u3", "-1 N 0 1 1 3", "-1 T 0", "-1 A 0 sr 1 2", "-1 A 0 sr 1 1", "-1 A 0 sr 1 0", "-1 S 0", "-1 A 0 sr 1 4",
+                            "-1 S 0", "-1 E 0 set 2", "-1 S 0", "-1 A 0 sr 1 3", "-1 E 0 set 1", "-1 S 0", "-1 end"],
     # TE10 (leakage terms outside the system), eight distinct parameters: the hash grows from 8 to 16 buckets
     "te10_hash_growth": ["-1 cfg s s s s s u4", "-1 N 2 2 2 1", "-1 T 0", "-1 A 0 dr 1 2 1 2", "-1 A 0 dr 1 2 3 4", "-1 A 0 dr 1 2 5 6", "-1 A 0 dr 1 2 7 8",
                          "-1 A 0 th 1 2", "-1 A 0 dr 1 2 0 0", "-1 S 0", "-1 F 0", "-1 end"],
@@ -502,7 +506,10 @@ def _pair_lines(script, cl, rc):
             cres.append(r)
             ops.append(line)
             continue
-        if ci + 1 < len(cl) and cl[ci] == "I skip" and cl[ci + 1].startswith("R SKIP"):
+        if len(t) >= 2 and t[1] == "V":             # C side only (digest of the solved terms): one "D" line, not an op of the model
+            ci += 1
+            continue
+        if ci + 1 < len(cl) and cl[ci].startswith("I skip") and cl[ci + 1].startswith("R SKIP"):
             ci += 2                                  # the fault-free call fails for a numeric reason: not an op of the model
             continue
         info = cl[ci] if ci < len(cl) else "I none"
@@ -565,6 +572,107 @@ def enumerate_new(ctx, exe, script, cap=None):
     return segs
 
 
+def _probe_lines(script, cl, rc):
+    """(result line of the op under test, [(probe op, what it gave)]) for a segment that ends with probes S / V per handle"""
+    out = []
+    ci = 0
+    for line in script:
+        t = line.split()
+        if (len(t) >= 2 and t[1] in ("cfg", "end")) or t == ["end"]:
+            ci += 1
+            continue
+        if len(t) >= 2 and t[1] == "V":
+            out.append((line, cl[ci] if ci < len(cl) else "<dead rc=%d>" % rc))
+            ci += 1
+            continue
+        if ci + 1 < len(cl) and cl[ci].startswith("I skip"):
+            out.append((line, "solve fails: " + cl[ci][7:]))
+            ci += 2
+            continue
+        r = cl[ci + 1] if ci + 1 < len(cl) else "<dead rc=%d>" % rc
+        out.append((line, " ".join(r.split()[:3])))
+        ci += 2
+    return out
+
+
+def _same_digest(a, b):
+    """D lines: equal up to 1e-7 (the solve may take another numeric route)"""
+    ta, tb = a.split(), b.split()
+    if len(ta) != len(tb):
+        return False
+    for x, y in zip(ta, tb):
+        if x == y:
+            continue
+        if "," not in x or "," not in y:
+            return False
+        try:
+            xr, xi = [float(z) for z in x.split(",")]
+            yr, yi = [float(z) for z in y.split(",")]
+        except ValueError:
+            return False
+        if not (abs(xr - yr) <= 1e-7 * (1 + abs(yr)) and abs(xi - yi) <= 1e-7 * (1 + abs(yi))):
+            return False
+    return True
+
+
+def as_before_check(ctx, exe, name, script):
+    """C12, 'no half-built object, all objects remain usable': for every op j of the fault-free script and every request k of it,
+    run  prefix, op j with request k+1 failing, NO repeat, then vnacal_new_solve + the solved terms of every handle; and run
+    prefix, the same probes.  When op j failed with ENOMEM the probes must give the same as if op j had never been called.
+    Returns the list of (sig, text, replay)."""
+    rc, cl, err = run_c(ctx, exe, script)
+    minput, cres, ops = _pair_lines(script, cl, rc)
+    body = [l for l in script if l in ops]
+    nh = sum(1 for l in body if l.split()[1] == "N")
+    probes = []
+    for h in range(nh):
+        probes += ["-1 S %d" % h, "-1 V %d" % h]
+    found = []
+    seen = set()
+    for j, (o, r) in enumerate(zip(ops, cres)):
+        t = o.split()
+        rt = r.split()
+        n = int(rt[4]) if (len(rt) > 4 and rt[0] == "R" and rt[4].isdigit()) else 0
+        if t[1] in ("cfg", "end", "V", "T", "F") or n == 0:
+            continue
+        base = body[:j] + probes + ["-1 end"]
+        rb, clb, errb = run_c(ctx, exe, base)
+        pb = _probe_lines(base, clb, rb)[j - 1:]
+        batch = []
+        for k in range(n):
+            batch.append(body[:j] + ["%d %s" % (k, o.split(" ", 1)[1])] + probes + ["-1 end"])
+        for k, seg in enumerate(batch):
+            rs, cls, errs = run_c(ctx, exe, seg)
+            ps = _probe_lines(seg, cls, rs)
+            res = ps[j - 1][1] if len(ps) > j - 1 else "<dead>"
+            ctx.count(("as-before", name, j, k))
+            if not res.startswith("R Err ENOMEM") and "AddressSanitizer" not in errs and "runtime error" not in errs:
+                continue
+            after = ps[j:]
+            diff = None
+            for (pa, ra), (pbq, rbq) in zip(after, pb):
+                same = _same_digest(ra, rbq) if ra.startswith("D") and rbq.startswith("D") else (ra == rbq)
+                if not same:
+                    diff = (pa, ra, rbq)
+                    break
+            if "AddressSanitizer" in errs or "runtime error" in errs:
+                diff = diff or ("<sanitizer>", errs[-300:], "")
+            if diff is None:
+                continue
+            effect = "solve-fails" if diff[1].startswith("solve fails") else "solve-differs" if diff[1].startswith("D") else "other"
+            opname = " ".join(t[1:2] + (t[3:4] if t[1] in ("A", "E") else []))
+            key = (opname, effect)
+            if key in seen:
+                continue
+            seen.add(key)
+            found.append(({"kind": "c12-not-as-before", "op": "new " + opname, "effect": effect},
+                          "after `%s` failed with ENOMEM (request %d; history %s) the calibration no longer behaves as before the call: `%s` gives `%s`, "
+                          "without the failed call it gives `%s`" % (o.split(" ", 1)[1], k + 1, name, diff[0], diff[1][:160], diff[2][:160]),
+                          {"script": seg, "without_the_call": base, "probe": diff[0], "after_failed_call": diff[1], "as_before": diff[2],
+                           "how": "harness/mem_wb2.c, no repeat of the failed call"}))
+    return found
+
+
 def run_new_tie(ctx, prop):
     """tie of coq/Mem/NewAlloc.v: generated histories (random k for C12) and exhaustive k over the directed histories"""
     try:
@@ -614,6 +722,14 @@ def run_new_tie(ctx, prop):
             small = [seg[0]] + mem_gen.ddmin(core, still, budget=40) + ["-1 end"]
             d2 = compare_new(ctx, exe, drv, small) or compare_new(ctx, exe, drv, seg)
             first = (label, small if compare_new(ctx, exe, drv, small) is not None else seg, d2)
+    # C12: a call that failed with ENOMEM leaves the calibration as it was (observed through vnacal_new_solve and the solved terms)
+    if faults:
+        nb = 0
+        for name in ("t8_sol_then_unknown",) if quick else sorted(NEW_DIRECTED):
+            for sig, text, replay in as_before_check(ctx, exe, name, list(NEW_DIRECTED[name])):
+                ctx.violation(sig, text, replay)
+                nb += 1
+        ctx.obligation("tie:new:failed_call_leaves_calibration_as_before", nb == 0, "%d deviations" % nb)
     ctx.traces_validated += len(scripts)
     ctx.extra["new_tie_steps_compared"] = nsteps
     ctx.extra["new_tie_fault_segments"] = nseg
